@@ -404,6 +404,65 @@ func init() {
 	reg("(*sync/atomic.Int32).Add", func(ex *Exec, st *State, fr *Frame, ins ssa.Instruction, args []Value) (Value, bool) {
 		return ex.G.FreshInt("atomicadd", types.Typ[types.Int32]), true
 	})
+	// fmt.Sprintf with a constant format that consists of literal text and %s verbs only, applied to strings: the
+	// concatenation. Every other format keeps the default (an arbitrary string).
+	reg("fmt.Sprintf", func(ex *Exec, st *State, fr *Frame, ins ssa.Instruction, args []Value) (Value, bool) {
+		if len(args) != 2 {
+			return nil, false
+		}
+		ft, ok := args[0].(*Term)
+		if !ok || ft.Op != "app" || len(ft.Args) != 0 {
+			return nil, false
+		}
+		format, isLit := ex.G.strLits[ft.Name]
+		if !isLit {
+			return nil, false
+		}
+		parts, ok := ex.sliceElems(st, args[1])
+		if !ok {
+			return nil, false
+		}
+		pieces := strings.Split(format, "%s")
+		if len(pieces) != len(parts)+1 {
+			return nil, false
+		}
+		for _, pc := range pieces {
+			if strings.Contains(pc, "%") {
+				return nil, false
+			}
+		}
+		r := ex.G.StrConst(pieces[0])
+		for i, a := range parts {
+			iv, ok := a.(*IfaceV)
+			if !ok {
+				return nil, false
+			}
+			t, ok := iv.Val.(*Term)
+			if !ok || t.Sort != SB {
+				return nil, false
+			}
+			if _, isStr := iv.Dyn.Underlying().(*types.Basic); !isStr {
+				return nil, false
+			}
+			r = ex.G.BCat(r, t)
+			if pieces[i+1] != "" {
+				r = ex.G.BCat(r, ex.G.StrConst(pieces[i+1]))
+			}
+		}
+		ModelsUsed["A17 fmt.Sprintf with a constant format of literal text and %s verbs over strings is the concatenation; hex.EncodeToString is a function of the bytes"] = true
+		return r, true
+	})
+	// hex.EncodeToString is an (uninterpreted, deterministic) function of the bytes, twice as long
+	reg("encoding/hex.EncodeToString", func(ex *Exec, st *State, fr *Frame, ins ssa.Instruction, args []Value) (Value, bool) {
+		sv, ok := args[0].(*SliceV)
+		if !ok {
+			return nil, false
+		}
+		b := ex.sliceBytes(st, sv)
+		r := App("hexenc", SB, b)
+		ex.G.lens[r.Key()] = Mul(IntC(2), ex.G.BLen(b))
+		return r, true
+	})
 	reg("encoding/hex.EncodedLen", func(ex *Exec, st *State, fr *Frame, ins ssa.Instruction, args []Value) (Value, bool) {
 		n, ok := args[0].(*Term)
 		if !ok {
